@@ -190,6 +190,11 @@ pub trait SubCheck: Sync {
     fn max_shrink_iters(&self) -> u32 {
         2000
     }
+    /// Whether the thorough tier may additionally drive this sub-check from libFuzzer bytes
+    /// (`fuzz.rs`): only for checks that are a pure function of the case and cheap per case.
+    fn fuzzable(&self) -> bool {
+        false
+    }
 }
 
 pub fn default_workers() -> usize {
@@ -474,10 +479,80 @@ pub trait ErasedSub: Sync {
     fn name(&self) -> &'static str;
     fn run(&self, ctx: &Ctx) -> SubOutcome;
     fn replay(&self, case: &Value) -> Result<Result<(), Fail>, String>;
+    fn fuzzable(&self) -> bool;
+    /// A closure that decodes fuzzer bytes into a case through the sub-check's own proptest
+    /// strategy (pass-through RNG) and runs the oracle on it.
+    fn fuzz_session<'a>(&'a self, tier: Tier) -> Box<dyn FnMut(&[u8], &mut Cov) -> FuzzStep + 'a>;
+    fn mandatory_labels(&self) -> Vec<&'static str>;
 }
+
+const FUZZ_TAIL_LEN: usize = 256 << 10;
+fn fuzz_tail() -> &'static [u8] {
+    static TAIL: std::sync::OnceLock<Vec<u8>> = std::sync::OnceLock::new();
+    TAIL.get_or_init(|| {
+        let mut x = 0x5EED_5EED_5EED_5EEDu64;
+        let mut v = Vec::with_capacity(FUZZ_TAIL_LEN);
+        while v.len() < FUZZ_TAIL_LEN {
+            x = x.wrapping_add(0x9E3779B97F4A7C15);
+            let mut z = x;
+            z = (z ^ (z >> 30)).wrapping_mul(0xBF58476D1CE4E5B9);
+            z = (z ^ (z >> 27)).wrapping_mul(0x94D049BB133111EB);
+            v.extend_from_slice(&(z ^ (z >> 31)).to_le_bytes());
+        }
+        v
+    })
+}
+
+/// Outcome of one fuzzer input.
+pub enum FuzzStep {
+    /// the bytes did not decode into a case (strategy rejected)
+    Rejected,
+    Pass,
+    Failed { case: Value, fail: Fail },
+}
+
 impl<C: SubCheck> ErasedSub for C {
     fn name(&self) -> &'static str {
         SubCheck::name(self)
+    }
+    fn fuzzable(&self) -> bool {
+        SubCheck::fuzzable(self)
+    }
+    fn mandatory_labels(&self) -> Vec<&'static str> {
+        self.mandatory()
+    }
+    fn fuzz_session<'a>(&'a self, tier: Tier) -> Box<dyn FnMut(&[u8], &mut Cov) -> FuzzStep + 'a> {
+        use proptest::strategy::{Strategy, ValueTree};
+        use proptest::test_runner::{RngAlgorithm, TestRng};
+        let strat = self.strategy(tier);
+        Box::new(move |bytes: &[u8], cov: &mut Cov| {
+            // The fuzz build links a patched proptest (vendor/proptest) whose pass-through RNGs all
+            // read one shared per-thread stream: the case is a function of the input bytes consumed
+            // in generation order. (Upstream halves the remaining bytes at every RNG fork, i.e. at
+            // every `prop_oneof!`, and loops forever once they are used up.)
+            #[cfg(srv_patched_proptest)]
+            let rng = {
+                proptest::test_runner::set_passthrough_stream(bytes);
+                TestRng::from_seed(RngAlgorithm::PassThrough, &[])
+            };
+            #[cfg(not(srv_patched_proptest))]
+            let rng = {
+                let mut buf = Vec::with_capacity(bytes.len() + FUZZ_TAIL_LEN);
+                buf.extend_from_slice(bytes);
+                buf.extend_from_slice(fuzz_tail());
+                TestRng::from_seed(RngAlgorithm::PassThrough, &buf)
+            };
+            let cfg = Config { failure_persistence: None, max_local_rejects: 64, max_global_rejects: 64, ..Config::default() };
+            let mut runner = TestRunner::new_with_rng(cfg, rng);
+            let case = match strat.new_tree(&mut runner) {
+                Ok(t) => t.current(),
+                Err(_) => return FuzzStep::Rejected,
+            };
+            match checked(self, &case, cov) {
+                Ok(()) => FuzzStep::Pass,
+                Err(fail) => FuzzStep::Failed { case: serde_json::to_value(&case).unwrap_or(Value::Null), fail },
+            }
+        })
     }
     fn run(&self, ctx: &Ctx) -> SubOutcome {
         run_sub(self, ctx)
